@@ -57,6 +57,7 @@ type pgen struct {
 	getters []string
 	methods []string
 	vars    []string
+	labels  map[string]bool
 	funcs   []string // methods declared by the program so far
 	nfn     int
 }
@@ -99,7 +100,23 @@ func (g *pgen) expr(d int) zn.Expr {
 			return &zn.Var{Name: g.vars[g.pick(len(g.vars), "v")]}
 		}
 	}
-	switch g.pick(11, "ek") {
+	switch g.pick(12, "ek") {
+	case 11:
+		// text formatting with well- and ill-formed templates and any argument (errors of the
+		// "semantic" kind, raised at run time, also inside method bodies)
+		tpl := []string{"{}", "{#.2}", "{}{}", "{", "{#x}", "a", "{#+}", "}{"}[g.pick(8, "tpl")]
+		var arg zn.Expr = g.expr(d - 1)
+		if g.pick(2, "fmtlist") == 0 {
+			l := &zn.ListLit{}
+			for i, n := 0, g.pick(3, "fmtn"); i < n; i++ {
+				l.Items = append(l.Items, g.expr(0))
+			}
+			arg = l
+		}
+		if g.pick(2, "fmtform") == 0 {
+			return &zn.Grp{E: &zn.MCall{Root: &zn.Str{V: tpl}, Chain: []zn.Call{{Name: "格式化", Args: []zn.Expr{arg}}}}}
+		}
+		return &zn.Grp{E: &zn.Bin{Op: "%", L: &zn.Str{V: tpl}, R: arg}}
 	case 0, 1:
 		return &zn.Bin{Op: []string{"+", "-", "*", "/", "|", "%", "==", "/=", ">", "<", ">=", "<=", "为", "不为", "且", "或"}[g.pick(16, "op")], L: g.expr(d - 1), R: g.expr(d - 1)}
 	case 2:
@@ -319,7 +336,7 @@ func (g *pgen) collLiteral(dict bool) zn.Expr {
 
 func TestCollectionSequences(t *testing.T) {
 	rapid.Check(t, func(t *rapid.T) {
-		g := &pgen{t: t}
+		g := &pgen{t: t, labels: map[string]bool{}}
 		dict := rapid.IntRange(0, 2).Draw(t, "kind") > 0
 		names := []string{"集一", "集二", "集三"}
 		var body []zn.Stmt
@@ -332,11 +349,20 @@ func TestCollectionSequences(t *testing.T) {
 		}
 		small := func() zn.Expr { return &zn.Num{Val: float64(g.pick(9, "idx") - 1)} }
 		val := func() zn.Expr {
-			switch g.pick(5, "vk") {
+			switch g.pick(6, "vk") {
 			case 0:
 				return vr("valvar")
 			case 1:
 				return &zn.ListLit{Items: []zn.Expr{&zn.Num{Val: 1}}}
+			case 3:
+				// a value produced by CHANGING one of the collections (possibly the very one
+				// the enclosing statement writes to): the target shrinks while the statement
+				// that indexes into it is being evaluated
+				g.labels["argument-mutates-a-collection"] = true
+				if dict {
+					return &zn.Grp{E: &zn.MCall{Root: vr("mutated"), Chain: []zn.Call{{Name: "移除", Args: []zn.Expr{key()}}}}}
+				}
+				return &zn.Grp{E: &zn.MCall{Root: vr("mutated"), Chain: []zn.Call{{Name: []string{"右移", "左移"}[g.pick(2, "mside")]}}}}
 			case 2:
 				// a fresh collection that holds one of the variables (possibly the receiver)
 				if g.pick(2, "wrapk") == 0 {
@@ -443,6 +469,9 @@ func TestCollectionSequences(t *testing.T) {
 		}
 		if copies > 0 && removes > 0 {
 			labels = append(labels, "copy-and-removal")
+		}
+		for l := range g.labels {
+			labels = append(labels, l)
 		}
 		h.R.Case(t, "illtyped", src, c, labels, copies > 0, checkProgram(c))
 	})
